@@ -46,7 +46,7 @@ func genC04(t *rapid.T) c04Case {
 		}
 	}
 	if c.Cfg.Algo == "vegas" {
-		c.Cfg.NoLoad = rapid.SampledFrom([]string{"", "", "", "single", "expavg"}).Draw(t, "noload")
+		c.Cfg.NoLoad = rapid.SampledFrom([]string{"", "", "", "single", "expavg", "minimum"}).Draw(t, "noload")
 		if rapid.IntRange(0, 2).Draw(t, "customfns") == 0 {
 			genVegasFns(t, &c.Cfg) // documented constructor options; the bounds are the update path's job, not the functions'
 		}
